@@ -2,7 +2,7 @@
 //!
 //! Responsible for compilation of expressions into instructions that use temporary registers.
 
-use std::collections::{HashMap, BTreeMap};
+use std::collections::BTreeMap;
 
 use crate::raw;
 use super::{LowerStmt, LowerInstr, LowerArgs, LowerArg, SimpleArg};
@@ -1238,7 +1238,7 @@ pub (in crate::llir::lower) fn assign_registers(
     let stringify_reg = |reg| crate::fmt::stringify(&ctx.reg_to_ast(hooks.language(), reg));
 
     let mut local_regs = IdMap::<DefId, RegId>::new();
-    let mut implicitly_used_regs = HashMap::<RegId, (ScalarType, Span)>::new();
+    let mut implicitly_used_regs = BTreeMap::<RegId, (ScalarType, Span)>::new();
     let mut has_used_scratch: Option<Span> = None;
     let mut has_anti_scratch_ins: Option<Span> = None;
     let mut debug_info = do_debug_info.then(|| debug_info::ScriptRegisterInfo {
@@ -1249,10 +1249,11 @@ pub (in crate::llir::lower) fn assign_registers(
     // For detecting multiple names that represent the same register for non-scratch registers;
     // Presenting warnings on this is particularly important for old ECL subs with parameters,
     // as those parameters may alias registers.
-    #[derive(Debug, Copy, Clone, PartialEq, Eq, Hash)]
+    #[derive(Debug, Copy, Clone, PartialEq, Eq, PartialOrd, Ord)]
     enum UsedName { RegId(RegId), DefId(DefId) }
     struct UsedNameData<'a> { span: Span, note: Option<&'a str> }
-    let mut clashing_names_for_regs = IdMap::<RegId, IdMap<UsedName, UsedNameData>>::new();
+    // (ordered maps, so that the warnings below come out in a reproducible order)
+    let mut clashing_names_for_regs = BTreeMap::<RegId, BTreeMap<UsedName, UsedNameData>>::new();
 
     let explicitly_used_regs = get_explicitly_used_regs(code);
 
@@ -1409,7 +1410,7 @@ fn script_too_complex(
     hooks: &dyn LanguageHooks,
     required_ty: ScalarType,
     explicitly_used_regs: &BTreeMap<RegId, Span>,
-    implicitly_used_regs: &HashMap<RegId, (ScalarType, Span)>,
+    implicitly_used_regs: &BTreeMap<RegId, (ScalarType, Span)>,
     ctx: &CompilerContext,
 ) -> ErrorReported {
     let stringify_reg = |reg| crate::fmt::stringify(&ctx.reg_to_ast(hooks.language(), reg));
